@@ -77,6 +77,14 @@ def run(tier, seed):
         # a share of the reservoir runs draws legal but extreme outcomes (uniforms next to 0 and 1, first / last slot)
         traces.append(GS.record_run(kind, cap, rng.random() < 0.6, p, n, rng.randrange(2 ** 31),
                                     pass_y_keyword=rng.random() < 0.3, extreme=(kind in ("uniform", "geometric") and i % 2 == 0)))
+    # the full product of the configuration dimensions on short streams (every class x store_targets x capacity x
+    # constant probability incl. 0, default and 1 x duplicate feature vectors), so that no combination depends on a draw
+    for kind in ("batch", "interval", "sequence", "uniform", "geometric"):
+        for targets in (True, False):
+            for cap in ((1,) if kind == "sequence" else (1, 3)):
+                for p in ((None, 0.0, 0.5, 1.0, 1) if kind == "geometric" else (None,)):
+                    for dup in (False, True):
+                        traces.append(GS.record_run(kind, cap, targets, p, 3 * cap + 4, rng.randrange(2 ** 31), dup_x=dup))
     for j in range(16 if quick else 160):      # dedicated runs of the two reservoirs under extreme (legal) outcomes
         traces.append(GS.record_run(["uniform", "geometric"][j % 2], rng.choice([1, 2, 3]), rng.random() < 0.5,
                                     rng.choice([None, 0.5]) if j % 2 else None, 60, rng.randrange(2 ** 31), extreme=True))
